@@ -21,6 +21,35 @@ void wr_all(int fd, const void *p, size_t n) {
 }
 void ser_u32(std::string &s, uint32_t v) { s.append(reinterpret_cast<const char *>(&v), 4); }
 
+//! in the child a fault on the stack (or its guard) is reported in one line instead of a symbolised sanitizer report
+uintptr_t g_stack_lo = 0, g_stack_hi = 0;
+void child_segv(int, siginfo_t *si, void *) {
+    uintptr_t a = reinterpret_cast<uintptr_t>(si->si_addr);
+    bool on_stack = a + (1u << 20) >= g_stack_lo && a < g_stack_hi;
+    const char *m = on_stack ? "C15-CHILD stack-overflow (fault address on the stack guard)\n" : "C15-CHILD segv-elsewhere\n";
+    if (write(2, m, strlen(m)) < 0) {}
+    _exit(on_stack ? 77 : 78);
+}
+void child_install_segv() {
+    pthread_attr_t at;
+    if (pthread_getattr_np(pthread_self(), &at) == 0) {
+        void *sa = nullptr; size_t sz = 0;
+        pthread_attr_getstack(&at, &sa, &sz);
+        g_stack_lo = reinterpret_cast<uintptr_t>(sa); g_stack_hi = g_stack_lo + sz;
+        pthread_attr_destroy(&at);
+    }
+    static char alt[1 << 16];
+    stack_t ss;
+    ss.ss_sp = alt; ss.ss_flags = 0; ss.ss_size = sizeof alt;
+    sigaltstack(&ss, nullptr);
+    struct sigaction sa;
+    memset(&sa, 0, sizeof sa);
+    sa.sa_sigaction = child_segv;
+    sa.sa_flags = SA_SIGINFO | SA_ONSTACK;
+    sigaction(SIGSEGV, &sa, nullptr);
+    sigaction(SIGBUS, &sa, nullptr);
+}
+
 ChildOut run_in_child(Ctx &c, const Bytes &dg, int srv, uint8_t lo, uint8_t hi) {
     ChildOut o;
     int po[2], pe[2];
@@ -32,6 +61,7 @@ ChildOut run_in_child(Ctx &c, const Bytes &dg, int srv, uint8_t lo, uint8_t hi) 
     if (pid == 0) {
         close(po[0]); close(pe[0]);
         dup2(pe[1], 2);
+        child_install_segv();
         c.in_child = true;
         std::unique_ptr<uint8_t[]> buf(new uint8_t[dg.size()]);
         if (!dg.empty()) memcpy(buf.get(), dg.data(), dg.size());
@@ -122,8 +152,8 @@ std::vector<std::pair<std::string, std::string>> vg_reports(const std::string &t
     for (size_t i = 0; i < lines.size(); ++i) {
         std::string l = strip(lines[i]);
         const char *kind = nullptr;
-        if (l.find("Conditional jump or move depends on uninitialised") == 0) kind = "uninitialised-condition";
-        else if (l.find("Use of uninitialised value") == 0) kind = "uninitialised-value-use";
+        if (l.find("Conditional jump or move depends on uninitialised") == 0) kind = "uninitialised-read";
+        else if (l.find("Use of uninitialised value") == 0) kind = "uninitialised-read";
         else if (l.find("Invalid read") == 0) kind = "invalid-read";
         else if (l.find("Invalid write") == 0) kind = "invalid-write";
         else if (l.find("Syscall param") == 0) kind = "uninitialised-syscall-param";
@@ -135,15 +165,18 @@ std::vector<std::pair<std::string, std::string>> vg_reports(const std::string &t
             std::string m = strip(lines[j]);
             if (m.empty()) break;
             block += m + "\n";
-            size_t p = m.find("tbox::");
-            if (site == "?" && p != std::string::npos && (m.find("at 0x") != std::string::npos || m.find("by 0x") != std::string::npos)) {
-                std::string f = m.substr(p + 6);
-                size_t q = f.find('(');
-                if (q != std::string::npos) f = f.substr(0, q);
-                std::string g;   // drop template arguments
-                int dep = 0;
-                for (char ch : f) { if (ch == '<') ++dep; else if (ch == '>') --dep; else if (!dep) g += ch; }
-                site = g;
+            // frame: "at|by 0xADDR: <function signature> (file:line)"; the first frame whose function is in tbox:: names the site
+            size_t p = m.find(": ");
+            if (site == "?" && p != std::string::npos && (m.find("at 0x") == 0 || m.find("by 0x") == 0 || m.find("at 0x") < 6 || m.find("by 0x") < 6)) {
+                std::string f = m.substr(p + 2);
+                if (f.compare(0, 6, "tbox::") == 0) {
+                    f = f.substr(6);
+                    size_t an;
+                    while ((an = f.find("(anonymous namespace)::")) != std::string::npos) f.erase(an, 23);
+                    size_t q = f.find('(');
+                    if (q != std::string::npos) f = f.substr(0, q);
+                    site = f;
+                }
             }
         }
         v.push_back(std::make_pair(std::string("memcheck/") + kind + "@" + site, block.substr(0, 2500)));
@@ -189,7 +222,7 @@ void run_datagram(Ctx &c, vh::Rng &r, const c15gen::Dg &dg, const std::string &d
             std::string ctx = vh::fmt(" | datagram(%zu bytes, %s, class %s)=%s", b.size(), x.why.c_str(), dg.tag.c_str(), hexs(b).substr(0, 1400).c_str());
             if (o.timeout) vh::viol("parser/compression/does-not-terminate", "isolated child still busy after 120 s" + ctx);
             else if (o.sig || o.code) {
-                bool so = o.err.find("stack-overflow") != std::string::npos || (o.sig == SIGSEGV && o.err.find("AddressSanitizer") == std::string::npos);
+                bool so = o.code == 77 || o.err.find("stack-overflow") != std::string::npos;
                 std::string kind = "signal-" + std::to_string(o.sig ? o.sig : o.code);
                 size_t p = o.err.find("ERROR: AddressSanitizer: ");
                 if (p != std::string::npos) { kind.clear(); for (size_t i = p + 25; i < o.err.size() && (isalnum((unsigned char)o.err[i]) || o.err[i] == '-'); ++i) kind += o.err[i]; }
